@@ -81,8 +81,28 @@ class Engine(BaseEngine):
                 out.append(("tags-" + cls, "tagsjson %s n:400 n:0" % C.tb(v)))
             for ol in range(0, 120):
                 out.append(("tags-outlen", "tagsjson %s %s n:0" % (C.tb(text), C.tn(ol))))
-        # nesting
         base_ev = events[-1][0]
+        # tokenizer desynchronisation: a UTF-8 lead byte right before a closing quote makes the byte-wise counting pass
+        # (count_tags / burn_string) and the code-point-wise reading pass (json_unescape) see different string ends;
+        # later strings made of JSON punctuation let both passes still find a well-formed continuation
+        def mini_ev(t, tail=b""):
+            return (b'{"id":"' + b"11" * 32 + b'","pubkey":"' + b"22" * 32 + b'","created_at":1,"kind":1,"tags":' + t + tail
+                    + b',"content":"c","sig":"' + b"33" * 64 + b'"}')
+        frag = [b"a", b"]]", b"],[", b'","', b"]", b"[", b",", b"", b'\\"', b"]],", b'"]]', b"x]]"]
+        for _ in range(400 if quick else 30000):
+            tags = []
+            for _t in range(rng.choice([1, 2, 2, 3])):
+                tags.append([rng.choice(frag) + (bytes([rng.choice([0xC3, 0xE2, 0xF0, 0xF4, 0xFF])]) * rng.choice([0, 0, 1, 1, 2]) if rng.random() < 0.5 else b"")
+                             for _s in range(rng.choice([1, 1, 2]))])
+            t = b"[" + b",".join(b"[" + b",".join(b'"' + x + b'"' for x in tg) + b"]" for tg in tags) + b"]"
+            out.append(("tags-desync", "tagsjson %s n:400 n:%d" % (C.tb(t), rng.choice([0, 170]))))
+            if rng.random() < 0.5:
+                ev = mini_ev(t)
+                out.append(("ev-desync", "evjson %s n:4096 n:%d" % (C.tb(ev), rng.choice([0, 170]))))
+        for t in (b'[["a\xf0"],["]]"]]', b'[["a\xe2"],["]"]]', b'[["\xc3"],["]]"]]', b'[["a\xf0"],["]],"]]'):
+            out.append(("tags-desync", "tagsjson %s n:400 n:170" % C.tb(t)))
+            out.append(("ev-desync", "evjson %s n:4096 n:170" % C.tb(mini_ev(t))))
+        # nesting
         for depth in (1, 2, 10, 127, 128, 129, 130, 1000, 10000, 200000):
             for opener, closer in ((b"[", b"]"), (b'{"a":', b"}"), (b"[", b"")):
                 val = opener * depth + (b"1" if closer or True else b"") + closer * depth
